@@ -13,7 +13,7 @@ from syne_tune.config_space import (
 
 PID = "C06"
 LEVEL = "proof"
-LEAN_TARGETS = ["SyneTune.Props.C06"]
+LEAN_TARGETS = ["SyneTune.Props.C06", "SyneTune.Props.C06Restrict"]
 DRIVER = "SyneTune/Drivers/Searcher.lean"
 THEOREMS = [
     "SyneTune.C06.keys_types_members",
@@ -36,24 +36,54 @@ THEOREMS = [
     "SyneTune.C06.shuffle_is_permutation",
     "SyneTune.C06.none_random_partial",
     "SyneTune.C06.none_only_if_exhausted_counterexample",
+    # random searcher with restrict_configurations (Props/C06Restrict.lean)
+    "SyneTune.C06R.in_list_iff",
+    "SyneTune.C06R.constructor",
+    "SyneTune.C06R.suggestions_from_list",
+    "SyneTune.C06R.keys_types_members_restricted",
+    "SyneTune.C06R.returned_pos_empty_between_calls",
+    "SyneTune.C06R.no_repeat",
+    "SyneTune.C06R.list_accounting",
+    "SyneTune.C06R.none_restricted_partial",
+    "SyneTune.C06R.none_when_all_excluded",
+    "SyneTune.C06R.none_only_if_used_up_counterexample",
+    "SyneTune.C06R.none_iff_list_used_up",
+    "SyneTune.C06R.caller_list_unchanged",
+    "SyneTune.C06R.caller_list_mutated_counterexample",
+    "SyneTune.C06R.unrestricted_agrees",
 ]
 TRUSTED = [
-    "hand-written models lean/SyneTune/Model/{Searcher,InitialPoints,Exclusion,RandomSearcher,Grid}.lean tied to /repo by the searcher stream",
+    "hand-written models lean/SyneTune/Model/{Searcher,InitialPoints,Exclusion,RandomSearcher,RandomRestrict,Grid}.lean tied to /repo by the searcher stream",
     "Python harness harness/streams/searcher.py (recording wrappers of hp_ranges.random_config, of the grid shuffle, of PBT's "
-    "random_state / Domain.sample, of bo_algorithm._pick_from_locally_optimized)",
+    "random_state / Domain.sample, of bo_algorithm._pick_from_locally_optimized; for restrict_configurations a per-instance proxy "
+    "of the searcher's random_state recording randint, and the list object passed by the harness observed after every call)",
+    "numpy RandomState.randint(low=0, high=n) returns a position below n (a recorded position outside the list is the model error 'tape')",
+    "restrict_configurations: sharing of list objects is modelled by one flag (the searcher's list is / is not the caller's object); "
+    "the only mutation of that list in the code is list.pop in get_config",
     "libm exp/log: the geometric mid-point of log-scaled domains and the internal grid of log-scaled finite ranges are inputs",
     "numpy RandomState: every draw is an input tape; nothing is assumed about its distribution",
     "IEEE-754 rounding: nearest-value ties within 2^-40 are free (implementation's choice adopted); PBT's float product compared up to 2^-40 relative",
 ]
 ASSUMPTIONS = [
-    "draws of the samplers are members of their domains (C07); restrict_configurations is not modelled (monitored only)",
+    "draws of the samplers are members of their domains (C07)",
+    "restrict_configurations is modelled for RandomSearcher (constructor filter, retry loop over positions, _rc_returned_pos, pop, "
+    "get_state / clone): Props/C06Restrict.lean; the GP searchers' use of the option (their internal random searcher and "
+    "_get_random_config called outside get_config) is not modelled",
+    "restrict_configurations: the entries of the caller's list are configurations of the space (hypothesis of "
+    "keys_types_members_restricted); 'None exactly when the list is used up' is proved for lists with pairwise different match "
+    "strings and allow_duplicates=False, otherwise the retry bound MAX_RETRIES makes it false (counterexample; known finding F8)",
     "GP searchers: the optimiser's proposals are arbitrary inputs; only the final exclusion filter and the bookkeeping are modelled",
     "the scheduler's config_space equals the searcher's up to constants",
 ]
 RULE = ("cases: (a) real RandomSearcher / GridSearcher at searcher level and inside FIFOScheduler / HyperbandScheduler "
         "(stopping, promotion, with and without max_resource_attr) on spaces generated from all public domain constructors "
         "incl. constants and single-value domains, points_to_evaluate None/[]/partial/duplicate/invalid, histories of "
-        "suggest/result/fail/pending, half of the finite spaces driven to exhaustion; (b) PopulationBasedTraining histories "
+        "suggest/result/fail/pending, half of the finite spaces driven to exhaustion; (a') RandomSearcher with "
+        "restrict_configurations at searcher level and inside FIFOScheduler: lists of length 1, lists that are exactly the initial "
+        "configurations (empty remainder from the start), lists sampled from the space with copies of initial configurations, lists with "
+        "repeated entries (at most half of the list), allow_duplicates both ways, every case driven until 'None' twice or 4 rounds "
+        "through the list — the model replays the recorded randint positions and is compared on output, remaining list, "
+        "_rc_returned_pos and the caller's list object after every call; (b) PopulationBasedTraining histories "
         "with every _explore call replayed in the model; (c) FIFO/Hyperband with GPFIFOSearcher/GPMultiFidelitySearcher: "
         "every call of the BO loop's final exclusion filter replayed with its real proposals, state codec on live states; "
         "distinct by sha256 of the spec; non-trivial iff at least one initial and one non-initial suggestion, or exhaustion "
@@ -130,6 +160,9 @@ def gen_cases(rng, tier):
         yield gen_pbt_case(rng, tier)
     for _ in range(n_g):
         yield gen_gp_case(rng, tier)
+    # (after all the others: the cases above are the same as before for a given seed)
+    for i in range(36 if tier == "quick" else 400):
+        yield S.gen_restricted_case(rng, i)
 
 
 def corpus():
@@ -141,6 +174,19 @@ def corpus():
         cases.append({"scenario": "searcher", "space": [["x", "randint", [0, 49], {}]], "kind": "random", "p2e": [],
                       "ctor": {"allow_duplicates": False, "random_seed": seed, "shuffle": False, "num_samples": {}, "debug_log": False},
                       "n_ops": 120, "seed": 1, "p_fail": 0, "p_clone": 0.0, "sched": None, "max_resource_attr": False})
+    # C06R.none_only_if_used_up_counterexample on the real code: 40 copies of x=0 and one x=1 in the list; after x=0 has been
+    # suggested the 39 remaining copies are excluded and 100 draws miss x=1 ('None' although x=1 was never suggested)
+    for seed in (6, 9):
+        cases.append({"scenario": "searcher", "space": [["x", "randint", [0, 3], {}]], "kind": "random", "p2e": [],
+                      "ctor": {"allow_duplicates": False, "random_seed": seed, "shuffle": False, "num_samples": {}, "debug_log": False,
+                               "restrict": [{"x": 0}] * 40 + [{"x": 1}]},
+                      "n_ops": 8, "seed": 1, "p_fail": 0, "p_clone": 0.0, "sched": None, "max_resource_attr": False})
+    # initial configurations outside / inside the list, the only list entry is an initial configuration (remainder empty at once)
+    cases.append({"scenario": "searcher", "space": [["x", "randint", [0, 9], {}], ["y", "choice", [["a", "b"]], {}]], "kind": "random",
+                  "p2e": [{"x": 3, "y": "a"}, {"x": 4, "y": "b"}],
+                  "ctor": {"allow_duplicates": False, "random_seed": 3, "shuffle": False, "num_samples": {}, "debug_log": False,
+                           "restrict": [{"x": 4, "y": "b"}]},
+                  "n_ops": 8, "seed": 2, "p_fail": 0, "p_clone": 0.0, "sched": None, "max_resource_attr": False})
     return cases
 
 
@@ -266,6 +312,27 @@ def monitor(spec, t):
         out.append({"signature": sig, "what": what, "detail": detail})
 
     sugg = [e for e in events if e["ev"] == "suggest"]
+    restrict = (spec.get("ctor") or {}).get("restrict") if spec["scenario"] == "searcher" else None
+    hp_only = [k for k, d in hp_cs.items() if isinstance(d, Domain)]
+
+    def on_hp(c):
+        return {k: c[k] for k in hp_only if k in c}
+
+    # 0. restrict_configurations: only configurations of the caller's list are suggested, and the list object the
+    #    caller passed is never changed
+    if restrict is not None:
+        allowed = [on_hp(c) for c in restrict]
+        for i, e in enumerate(sugg):
+            if on_hp(e["config"]) not in allowed:
+                add("c06:restricted-suggestion-outside-list",
+                    f"suggestion #{i} {on_hp(e['config'])!r} is not in restrict_configurations", {"list": repr(restrict)})
+                break
+        for e in events:
+            if e["ev"] == "caller-list" and e["list"] != restrict:
+                add("c06:restrict-configurations-caller-list-mutated",
+                    f"after {e['when']} the list object passed as restrict_configurations holds {len(e['list'])} entries "
+                    f"{e['list']!r}; the caller passed {len(restrict)}: {restrict!r}")
+                break
     # 1. validity / types / constants
     for e in sugg:
         for sig, what in check_config(cs if e["level"] == "scheduler" else hp_cs, e["config"], e["level"], exempt):
@@ -287,6 +354,9 @@ def monitor(spec, t):
         except Exception:  # a value the rule cannot be read on (invalid point rejected by the constructor)
             exp = None
         n_init = 0
+        if exp is not None and restrict is not None:
+            # initial configurations that are not in the list are dropped
+            exp = [ex for ex in exp if any(_matches(ex, c) for c in restrict)]
         if exp is not None:
             # a point whose imputed configuration equals an earlier one is dropped; the others
             # are the first suggestions, in the given order
@@ -372,7 +442,36 @@ def monitor(spec, t):
                 if full is not None and all(not isinstance(d, (Integer, Float)) or len(d) == 1 for d in hp_cs.values() if isinstance(d, Domain)):
                     if len(distinct) != full:
                         add("c06:grid-none-before-exhaustion", f"discrete space has {full} configurations, grid search stopped after {len(distinct)}")
+            elif restrict is not None:
+                # 'nothing left' only when every configuration of the list has been suggested
+                n_before, n_draws = 0, 0
+                for e in events:
+                    if e["ev"] == "suggest":
+                        n_before += 1
+                    elif e["ev"] == "none":
+                        n_draws = e.get("n_draws", 0)
+                        break
+                got = [c for c, _ in seen_cfg[:n_before]]
+                missing = [c for c in (on_hp(c) for c in restrict) if c not in got]
+                if missing:
+                    # the retry loop giving up after MAX_RETRIES excluded draws is the known F8 (same loop bound as the
+                    # unrestricted searcher: C06R.none_only_if_used_up_counterexample); anything else is new
+                    gave_up = n_draws >= S.MAX_RETRIES
+                    add("c06:random-none-before-exhaustion" if gave_up else "c06:restricted-none-before-list-used-up",
+                        f"restrict_configurations: 'nothing left' after {n_before} suggestions ({n_draws} draws) although "
+                        f"{missing[0]!r} of the list was never suggested")
             else:
+                # configurations suggested BEFORE the first 'nothing left' (a later call may still find one)
+                n_before = 0
+                for e in events:
+                    if e["ev"] == "suggest":
+                        n_before += 1
+                    elif e["ev"] == "none":
+                        break
+                distinct = []
+                for c, _ in seen_cfg[:n_before]:
+                    if c not in distinct:
+                        distinct.append(c)
                 full = S.true_space_size(hp_cs)
                 if full is not None and len(distinct) < full:
                     who = "random" if spec["scenario"] == "searcher" else "bo"
@@ -405,6 +504,20 @@ def run_impl(spec):
             "codec": sum(1 for e in ev if e["ev"] == "codec"),
             "retry-draws": sum(max(0, len(l[0].get("draws", [])) - 1) for l in t["lines"] if isinstance(l[0].get("draws"), list)),
             "sched:" + str(spec.get("sched")): 1}
+    rst = (spec.get("ctor") or {}).get("restrict") if sc == "searcher" else None
+    if rst is not None:
+        init_ev = next((e for e in ev if e["ev"] == "init"), None)
+        cl = [e for e in ev if e["ev"] == "caller-list"]
+        idr = [l[0]["idraws"] for l in t["lines"] if isinstance(l[0].get("idraws"), list)]
+        hist.update({"restricted": 1, "restricted:allow_duplicates=" + str(bool(spec["ctor"].get("allow_duplicates"))): 1,
+                     "restricted:list-of-length-1": int(len(rst) == 1),
+                     "restricted:list-with-duplicates": int(any(rst[i] == rst[j] for i in range(len(rst)) for j in range(i))),
+                     "restricted:initial-configs-in-list": len(init_ev["init"]) if init_ev else 0,
+                     "restricted:remainder-empty-at-start": int(bool(cl) and cl[0]["remaining"] == []),
+                     "restricted:remainder-emptied": int(any(e["remaining"] == [] for e in cl)),
+                     "restricted:driven-past-exhaustion": int(hist["none"] > 0),
+                     "restricted:index-draws": sum(len(d) for d in idr),
+                     "restricted:retry-index-draws": sum(max(0, len(d) - 1) for d in idr)})
     n_init = len(next((e["init"] for e in ev if e["ev"] == "init"), []))
     nontriv = bool((n_init >= 1 and len(sugg) > n_init) or hist["none"] or hist["explore"] or hist["bo_pick"])
     return {"lines": t["lines"], "monitor": mon, "meta": {"hist": hist, "nontrivial": nontriv}}
